@@ -88,6 +88,23 @@ TEMPLATES = [
     ("where_subquery_both_ways", "ansi", "INSERT INTO {a} SELECT k FROM {b} WHERE k IN (SELECT k FROM used.tb_b) AND k NOT IN (SELECT k FROM {c})"),
 ]
 
+# dialect zoo: every ansi-written template is also analysed under every other sqlfluff dialect (id "<template>@<dialect>");
+# each dialect has grammar - and extractor branches - of its own (RENAME nested in a clause, bare new names, ...).
+# A (template, dialect) whose bare or qualified rendering does not parse / is not supported there is not comparable
+# and is skipped (decided from the clean-process references, counted).
+ZOO_DIALECTS = ["athena", "bigquery", "clickhouse", "databricks", "db2", "doris", "duckdb", "exasol", "flink", "greenplum", "hive", "impala", "mariadb",
+                "materialize", "mysql", "oracle", "postgres", "redshift", "snowflake", "sparksql", "sqlite", "starrocks", "teradata", "trino", "tsql", "vertica"]
+ZOO_EXTRA = [
+    ("rename_qualified_to_bare", "ansi", "INSERT INTO q.old SELECT c1 FROM {b} x JOIN {c} y ON x.id = y.id; ALTER TABLE q.old RENAME TO {a}"),
+    ("rename_bare_to_bare", "ansi", "INSERT INTO {a} SELECT c1 FROM {b}; ALTER TABLE {a} RENAME TO {c}"),
+    ("rename_table_statement", "ansi", "INSERT INTO q.old SELECT * FROM {b}; RENAME TABLE q.old TO {a}"),
+    ("truncate_insert", "ansi", "TRUNCATE TABLE {a}; INSERT INTO {a} SELECT * FROM q.fixed"),
+    ("delete_using", "ansi", "DELETE FROM {a} WHERE id IN (SELECT id FROM {b})"),
+    ("create_view_join", "ansi", "CREATE VIEW {a} AS SELECT x.c1 FROM q.fixed x JOIN {b} y ON x.id = y.id"),
+    ("insert_from_cte_first", "ansi", "INSERT INTO {a} WITH x AS (SELECT c1 FROM {b}) SELECT c1 FROM x"),
+]
+ZOO = [(f"{tid}@{d}", d, sql) for d in ZOO_DIALECTS for (tid, dd, sql) in TEMPLATES + ZOO_EXTRA if dd == "ansi"]
+
 PLACEHOLDERS = ["a", "b", "c", "d", "e"]
 # default-schema values: a fresh name, and a name already used as a qualifier in some templates
 SCHEMAS = ["s1", "zz9", "used", "q"]
